@@ -606,6 +606,7 @@ def _wrapper_worker(job):
             if e1.dead:
                 continue
             variants = [(e1, v, '')]
+            ex = None
             # split a small first-character class so that a wrapper that drops one letter is noticed
             first = v.pre[0] if v.pre else None
             if prefix is None and first is not None and not isinstance(first, frozenset):
@@ -639,6 +640,33 @@ def _wrapper_worker(job):
                 if not isinstance(outs2, list) or not outs2:
                     kinds = sorted(set(ev.kind for ev in I.ctx.scopes[0]))
                     out['rejected'].append((desc, kinds))
+                elif not out.get('padded'):
+                    out['padded'] = True        # one presentation variant per (wrapper, constituent) pair
+                    # presentation variant: the same number between blanks; when the constituent accepts it the wrapper has to as well
+                    ep = e2.copy()
+                    ep.frames = [{}]
+                    parg = vv
+                    if prefix is not None and I.starts_truth(vv, S.const(prefix), True, ep) is False:
+                        parg = S.concat(ep, S.const(prefix), vv)
+                    padded = S.concat(ep, S.concat(ep, S.const(' '), parg), S.const(' '))
+                    I.ctx.scopes = [[]]
+                    I.ctx.stack = [(K, '<entry>')]
+                    I.closures = []
+                    I.memo = {}
+                    karg = padded if prefix is None else S.concat(ep, S.concat(ep, S.const(' '), vv), S.const(' '))
+                    ek = ep.copy()
+                    kouts = I.call_func(Func(rk[1], rk[2]), [karg] + entry_args(I, knode, ek)[1:], {}, knode, ek, multi=True)
+                    if isinstance(kouts, list) and kouts:
+                        I.ctx.scopes = [[]]
+                        I.ctx.stack = [(W, '<entry>')]
+                        I.closures = []
+                        I.memo = {}
+                        ew = ep.copy()
+                        wouts = I.call_func(Func(rw[1], rw[2]), [padded] + entry_args(I, wnode, ew)[1:], {}, wnode, ew, multi=True)
+                        out['shapes'] += 1
+                        if not isinstance(wouts, list) or not wouts:
+                            kinds = sorted(set(ev.kind for ev in I.ctx.scopes[0]))
+                            out['rejected'].append((desc + ' written between blanks', kinds))
                 elif prefix is not None:
                     carried = []
                     for e3, v3 in outs2:
@@ -921,3 +949,27 @@ if __name__ == '__main__':
             for x in r['notes']:
                 print('   note:', x)
     print('%d modules, %d alarms, %.1fs' % (len(res), n, time.time() - t))
+
+
+def generator_result_lengths(mn, fname):
+    """Lengths (lo, hi) of the strings `mn.fname(<any string>)` can return, None when it returns something else."""
+    I = get_interp()
+    S = I.ctx.S
+    prog = I.prog
+    r = prog.resolve_name(prog.mods[mn], fname)
+    if not r or r[0] != 'func':
+        return None
+    fnode = prog.mods[r[1]].funcs[r[2]]
+    env = Env()
+    I.ctx.scopes = [[]]
+    I.ctx.stack = [(mn, '<entry>')]
+    I.closures = []
+    I.memo = {}
+    args = entry_args(I, fnode, env, number=S.any_str(env))
+    outs = I.call_func(Func(r[1], r[2]), args, {}, fnode, env, multi=True)
+    res = set()
+    for e, v in (outs if isinstance(outs, list) else []):
+        if not isinstance(v, Str):
+            return None
+        res.add((v.lo or 0, v.hi) if not v.fixed else (len(v.pre), len(v.pre)))
+    return sorted(res, key=str)
